@@ -1,25 +1,10 @@
 use crate::{Resource, World};
 
+// VERIF MODEL: the message is a literal (shred formats the type name through `tynm`, a
+// string parser that the symbolic executor would have to run on every fetch site)
 macro_rules! fetch_panic {
     () => {{
-        panic!(
-            "\
-            Tried to fetch resource of type `{resource_name_simple}`[^1] from the `World`, but \
-            the resource does not exist.\n\
-\n\
-            You may ensure the resource exists through one of the following methods:\n\
-\n\
-            * Inserting it when the world is created: `world.insert(..)`.\n\
-            * If the resource implements `Default`, include it in a system's `SystemData`, \
-              and ensure the system is registered in the dispatcher.\n\
-            * If the resource does not implement `Default`, insert it in the world during \
-              `System::setup`.\n\
-\n\
-            [^1]: Full type name: `{resource_name_full}`\
-            ",
-            resource_name_simple = tynm::type_name::<T>(),
-            resource_name_full = std::any::type_name::<T>(),
-        )
+        panic!("Tried to fetch a resource from the `World`, but the resource does not exist")
     }};
 }
 
